@@ -11,7 +11,8 @@ does on a healthy file) / a loop ran out of fuel.
 
 Bottom primitives (hand-written here; everything above them is generated):
 `seek`, `seekEnd`, `seekCur`, `seekBack`, `seekPosition`, `readU8`, `writeU8`, `readU64Le`, `writeU64Le`, `writeZero`,
-`readVu64`, `writeVu64`, `writeBytes` (`write_all`), `readBytes` (`read_exact_maybeslice`).
+`readVu64`, `writeVu64`, `writeBytes` (`write_all`), `readBytes` (`read_exact_maybeslice`), `readPad` (`read_exact` into a
+local array: std's default loop over rabuf's `read`), `setLen` (`set_len`).
 
 `readU8` / `readU64Le` (the `SmallRead` fast paths `read_u8`, `read_u64_le`) do **not** fail at the end of the
 file: they do not look at it (`RaBuf.readSmall`), what they find beyond it is the zero padding of the chunk.
@@ -69,12 +70,24 @@ def seekBack (n : Nat) : M Nat := fun s => if n ≤ s.pos then seek (s.pos - n) 
 the item is taken out of the chunk of the cursor without a look at the end of the file; beyond the end the chunk
 holds its zero padding (`Chunk::new`: "zero fill"; nothing stale: the files of this crate do not shrink), and the
 cursor passes the end (the callers seek before they write).  Inside the file this is `readBytes n`.
+The same holds for `std::io::Read::read_exact` on the `VarFile` (the header checks of `open`): `impl Read for VarFile` has only
+`read` = rabuf's `read`, which copies out of the chunk of the cursor up to the chunk boundary, never returns 0 bytes and does not
+look at the end of the file either (`RaBuf.read`, `RaBuf.readExact`): no `UnexpectedEof` on a short file, the buffer is
+filled with the zero padding.
 Not modelled (failure): a cursor that is already beyond the end. -/
 def readPad (n : Nat) : M (List Nat) := fun s =>
   if s.pos ≤ s.bytes.length then
     let bs := (s.bytes.drop s.pos).take n
     some (bs ++ List.replicate (n - bs.length) 0, { s with pos := s.pos + n })
   else none
+
+/-- `set_len(n)` of the buffer (rabuf `FileSetLen::set_len`, model `RaBuf.setLen`): the file is truncated to `n` bytes or
+extended with zeros up to `n`; a cursor beyond the new end is clamped to it, otherwise it stays.
+Extending is exact.  Shrinking is exact for the bytes of the file, but rabuf keeps the cut-off bytes in its resident chunks
+(no chunk is dropped or zeroed), so a later `readPad` beyond the new end would see them instead of zeros: that is not
+modelled.  The translated code calls `set_len` only to extend (the table file at creation). -/
+def setLen (n : Nat) : M Unit := fun s =>
+  some ((), { bytes := s.bytes.take n ++ List.replicate (n - s.bytes.length) 0, pos := if n < s.pos then n else s.pos })
 
 /-- `read_u8` -/
 def readU8 : M Nat := do
